@@ -165,11 +165,11 @@ RESOLVER = {
                        ("convert", 500, 5000)]},
     "C07": {"inv": ["C07", "C07h"], "minv": ["C07"], "reps": (25, 100), "family": "C07", "random": [("general", 300, 3000)], "model": (200, 2000)},
     "C08": {"inv": ["C08", "C01", "C04", "C06"], "minv": ["C08"], "reps": (3, 6), "family": "C08", "life": True, "linv": ["C08life"], "random": [("redef", 2500, 30000), ("redeffail", 800, 10000)]},
-    "C10": {"inv": ["C10", "C01", "C02", "C04", "C05", "C06"], "minv": ["C10"], "reps": (4, 8), "family": "C10",
-            "random": [("convcall", 3500, 35000), ("convert", 800, 8000)], "model": (600, 6000)},
+    "C10": {"inv": ["C10", "C01", "C02", "C04", "C05", "C05gen", "C06"], "minv": ["C10"], "reps": (4, 8), "family": "C10",
+            "random": [("convcall", 3500, 35000), ("convert", 800, 8000), ("convgens", 600, 6000)], "model": (600, 6000)},
     "C16": {"inv": ["C16", "C03", "OptsIntact"], "minv": ["C16"], "reps": (6, 12), "family": "C16", "random": [("wild", 800, 8000), ("general", 500, 5000)], "model": (300, 3000)},
     "C13": {"inv": ["C13"], "reps": (2, 4), "family": "C13", "life": True,
-            "random": [("general", 2500, 25000), ("nosub", 1500, 15000), ("multi", 1000, 10000)]},
+            "random": [("general", 2500, 25000), ("nosub", 1500, 15000), ("multi", 1000, 10000), ("wild", 800, 8000)]},
 }
 
 
@@ -179,6 +179,9 @@ def eligible_for_model(s):
     #  on the real traces only)
     odd = {"E", "PE"}
     if any(l["type"] in odd for l in s["target"]["in"] + s["inputs"]):
+        return False
+    # a body that fails on its second execution only: the model's functions fail always or never
+    if any(c.get("failOn") for c in s["convs"]):
         return False
     return True
 
